@@ -286,4 +286,60 @@ example : (increase 64 (10 ^ 9) { wMarket with oiL := {}, oitL := {}, collL := {
     = some wPos := by rfl
 example : (checkLiquidatable 64 (10 ^ 9) wMarket wPerp wPrices wPos true true).toOption = some none := by rfl
 
+/-! #### audit additions: witnesses for the remaining hypotheses -/
+/-- `checkLeverage_mono` / `checkCollateral_mono`: sufficient at the 1 % factor (and at the smaller 0.5 %),
+with the min-collateral test on. -/
+example : checkLeverage 64 (10 ^ 9) (20 * 10 ^ 9) (10 ^ 7) false (28 * 10 ^ 8) = some .sufficient ∧
+    checkLeverage 64 (10 ^ 9) (20 * 10 ^ 9) (5 * 10 ^ 6) false (28 * 10 ^ 8) = some .sufficient ∧
+    checkCollateral 64 (10 ^ 9) (20 * 10 ^ 9) (10 ^ 7) (some (10 ^ 9)) false (28 * 10 ^ 8) = some .sufficient := by
+  refine ⟨by rfl, by rfl, by rfl⟩
+example : checkCollateral 64 (10 ^ 9) (20 * 10 ^ 9) (5 * 10 ^ 6) (some (10 ^ 9)) false (28 * 10 ^ 8) = some .sufficient :=
+  checkCollateral_mono (f₁ := 10 ^ 7) (by decide) (by rfl)
+/-- `healthy_implies_not_liquidatable`: both hypotheses hold of `wPos` in `wMarket` (`wPerp` has equal
+factors), instantiating the theorem. -/
+example : checkLiquidatable 64 (10 ^ 9) wMarket wPerp wPrices wPos true true = .ok none :=
+  healthy_implies_not_liquidatable (by decide) (by rfl)
+/-- `decrease_open_not_liquidatable_partial`: a partial decrease withdrawing only 0.1 USD leaves the position
+open with remaining collateral value 2.5·10⁹ ≥ the minimum 10⁹ (and `wPerp`'s factors are equal):
+`(removed, collateral, remaining value, min value, liq factor, open factor)`. -/
+example : (match decrease 64 (10 ^ 9) wMarket wPerp wPrices wPos (10 * 10 ^ 9) (10 ^ 8) {} with
+  | .ok (m', p', r) => some (r.shouldRemove, p'.collateral, (remainingCollateralValue 64 (10 ^ 9) m' wPerp wPrices p').toOption,
+      wPerp.minCollateralValue, wPerp.minCollateralFactorLiq, wPerp.minCollateralFactor)
+  | .error _ => none) = some (false, 2600000000, some 2500000000, 1000000000, 10000000, 10000000) := by decide +kernel
+/-- `liquidation_only_unhealthy`, `liquidation_full_close`, `liquidation_full_close_generated`: at index 87 the
+long entered at 100 has lost 2.6·10⁹ of its 2.8·10⁹ collateral: it IS liquidatable, and the liquidation order
+(insolvent close allowed) succeeds — directly, through the transcribed guard and through the generated guard
+table — closing the whole size: `(removed, executed delta, remaining size, collateral, output)` and the pnl. -/
+example : (checkLiquidatable 64 (10 ^ 9) wMarket wPerp ⟨⟨87, 87⟩, ⟨87, 87⟩, ⟨1, 1⟩⟩ wPos true true).toOption
+    = some (some .minCollateral) := by rfl
+example : (match decrease 64 (10 ^ 9) wMarket wPerp ⟨⟨87, 87⟩, ⟨87, 87⟩, ⟨1, 1⟩⟩ wPos (20 * 10 ^ 9) 0 ⟨true, true, false⟩ with
+  | .ok (_, p', r) => some (r.shouldRemove, [r.sizeDelta, p'.sizeUsd, p'.collateral, r.output], r.pnl) | .error _ => none)
+    = some (true, [20000000000, 0, 0, 0], -2600000000) := by decide +kernel
+example : (match guardedDecrease 64 (10 ^ 9) wMarket wPerp ⟨⟨87, 87⟩, ⟨87, 87⟩, ⟨1, 1⟩⟩ wPos (20 * 10 ^ 9) 0 true false .liquidation with
+  | .ok (_, p', r) => some (r.shouldRemove, [r.sizeDelta, p'.sizeUsd, p'.collateral, r.output], r.pnl) | .error _ => none)
+    = some (true, [20000000000, 0, 0, 0], -2600000000) := by decide +kernel
+example : (match runGuard Gmx.Gen.C09.checks 64 (10 ^ 9) wMarket wPerp ⟨⟨87, 87⟩, ⟨87, 87⟩, ⟨1, 1⟩⟩ wPos (20 * 10 ^ 9) 0 true false .liquidation with
+  | .ok (_, p', r) => some (r.shouldRemove, [r.sizeDelta, p'.sizeUsd, p'.collateral, r.output], r.pnl) | .error _ => none)
+    = some (true, [20000000000, 0, 0, 0], -2600000000) := by decide +kernel
+/-- `full_size_removes`: `settleDecrease` by the whole size with 2.6·10⁹ remaining collateral. -/
+example : (match settleDecrease 64 (10 ^ 9) wMarket wPerp wPrices wPos wPos.sizeUsd wPos.sizeTokens (26 * 10 ^ 8) 0 with
+  | .ok (_, p', rm, out') => some (rm, [p'.sizeUsd, p'.sizeTokens, p'.collateral, out']) | .error _ => none)
+    = some (true, [0, 0, 0, 2600000000]) := by decide +kernel
+/-- `adl_guard_spec` / `adl_guard_spec_generated`: long pool 10⁹ tokens, `ForAdl` limit 1 %, index 110: the
+long's pnl is 1.82 % of the pool (> 1 %); an ADL order for half the size succeeds (transcribed and generated
+guard) and lowers the factor to 0.92 % ≥ `MinAfterAdl` = 0: `(factor before, after, removed, delta, size left, pnl)`. -/
+example : (match guardedDecrease 64 (10 ^ 9) { wMarket with cfg := { wCfg with maxPnlAdl := 10 ^ 7 }, primary := ⟨10 ^ 9, 10 ^ 14 + 2 * 10 ^ 8⟩ }
+      wPerp ⟨⟨110, 110⟩, ⟨110, 110⟩, ⟨1, 1⟩⟩ wPos (10 * 10 ^ 9) 0 false false .adl with
+  | .ok (m', p', r) => some (pnlFactorWithPoolValue 64 (10 ^ 9)
+        { wMarket with cfg := { wCfg with maxPnlAdl := 10 ^ 7 }, primary := ⟨10 ^ 9, 10 ^ 14 + 2 * 10 ^ 8⟩ } ⟨⟨110, 110⟩, ⟨110, 110⟩, ⟨1, 1⟩⟩ true true,
+      pnlFactorWithPoolValue 64 (10 ^ 9) m' ⟨⟨110, 110⟩, ⟨110, 110⟩, ⟨1, 1⟩⟩ true true,
+      r.shouldRemove, [r.sizeDelta, p'.sizeUsd], r.pnl)
+  | .error _ => none)
+    = some (some (18181818, 110000000000), some (9174311, 109000000010), false, [10000000000, 10000000000], 1000000000) := by
+  decide +kernel
+example : (match runGuard Gmx.Gen.C09.checks 64 (10 ^ 9) { wMarket with cfg := { wCfg with maxPnlAdl := 10 ^ 7 }, primary := ⟨10 ^ 9, 10 ^ 14 + 2 * 10 ^ 8⟩ }
+      wPerp ⟨⟨110, 110⟩, ⟨110, 110⟩, ⟨1, 1⟩⟩ wPos (10 * 10 ^ 9) 0 false false .adl with
+  | .ok (_, p', r) => some (r.shouldRemove, [r.sizeDelta, p'.sizeUsd], r.pnl)
+  | .error _ => none) = some (false, [10000000000, 10000000000], 1000000000) := by decide +kernel
+
 end Gmx.C09
